@@ -2192,9 +2192,25 @@ impl AssociatedFile for AnnotationStore {
 
         self.filename = Some(filename.into());
 
-        //setting a filename may change the workdir of existing resources/datasets
+        //setting a filename may change the workdir of existing resources/datasets;
+        //a stand-off file that now belongs in another directory has to be written there
         let workdir = self.dirname();
-        self.update_config(false, |config| config.workdir = workdir.clone());
+        for resource in self.resources.iter_mut().flatten() {
+            if resource.config.workdir != workdir {
+                resource.config.workdir = workdir.clone();
+                if resource.filename().is_some() {
+                    resource.mark_changed();
+                }
+            }
+        }
+        for annotationset in self.annotationsets.iter_mut().flatten() {
+            if annotationset.config.workdir != workdir {
+                annotationset.config.workdir = workdir.clone();
+                if annotationset.filename().is_some() {
+                    annotationset.mark_changed();
+                }
+            }
+        }
 
         if self.filename().unwrap().ends_with(".json") {
             if let DataFormat::Json { .. } = self.config.dataformat {
